@@ -480,6 +480,7 @@
     pub(crate) static mut PARSE_LOG: [(usize, u8, u8, u8); 8] = [(0, 0, 0, 0); 8];
     pub(crate) static mut PARSE_RES: [(u8, usize); 8] = [(0, 0); 8];
     pub(crate) static mut PARSE_CALLS: usize = 0;
+    pub(crate) static mut PARSE_LEFT: [u8; 8] = [0; 8];
     impl Parser {
         pub(crate) fn stub_parse(&mut self, cursor: &mut ReadCursor, payload: &mut FramePayload) -> Result<Option<Header>, ParseError> {
             let n = unsafe { PARSE_CALLS };
@@ -496,7 +497,8 @@
                 unsafe { PARSE_LOG[n] = (remaining, first, last, state_tag(&self.state)); PARSE_RES[n] = (res, k); }
             }
             unsafe { PARSE_CALLS += 1; }
-            let _ = set_state_any(self);
+            let left = set_state_any(self);
+            if n < 8 { unsafe { PARSE_LEFT[n] = left; } }
             match res {
                 0 => Ok(None),
                 1 => Ok(Some(Header::new(ControlField::from(kani::any()), AnyAddress::from(kani::any()), AnyAddress::from(kani::any())))),
@@ -508,3 +510,4 @@
     pub(crate) fn parse_log(i: usize) -> (usize, u8, u8, u8) { unsafe { PARSE_LOG[i] } }
     pub(crate) fn parse_res(i: usize) -> (u8, usize) { unsafe { PARSE_RES[i] } }
     pub(crate) fn parse_log_reset() { unsafe { PARSE_CALLS = 0; } }
+    pub(crate) fn parse_left(i: usize) -> u8 { unsafe { PARSE_LEFT[i] } }
